@@ -1,3 +1,4 @@
+import GoRedisModel.Proofs.Translated
 import GoRedisModel.Proofs.Spec
 import GoRedisModel.Proofs.ExStore
 import GoRedisModel.Generated.Facts
@@ -323,5 +324,32 @@ def noScores : ScoreTable := fun _ => none
 example : enc (refHandle noScores (.lrange b!"l" 0 (-1))
     (refHandle noScores (.lpush b!"l" [b!"x", b!"y"] false) (refHandle noScores (.rpush b!"l" [b!"a", b!"b"] false) []).2).2).1.msg
     = enc (bulks' [b!"y", b!"x", b!"a", b!"b"]) := by decide +kernel
+
+/-! ## The example store's index arithmetic as translated from the current source (regenerated on every run)
+
+`clampRange`, `limitZSetMembers` and `List.Index` are translated from `examples/go-redisd/server/{list,zset}.go` by
+`bin/extract` statement for statement (`Generated/Translated.lean`); the hand transcription in `Model/ExStore`, and with
+it `C18_ex_range`, `C18_ex_limit`, `C18_ex_lindex`, is about that code. -/
+
+theorem C18_source_clampRange (length start stop : Int) (hl : 0 ≤ length) (hL : inInt64 length = true)
+    (hs : inInt64 start = true) (ht : inInt64 stop = true) :
+    Translated.clampRange length start stop = (match Ex.clampRange length start stop with
+      | none => (0, 0, false)
+      | some (a, b) => (a, b, true)) := Translated.clampRange_eq length start stop hl hL hs ht
+
+/-- LIMIT: the two slice expressions never panic and select `limitSlice`, for any offset and count -/
+theorem C18_source_limit (l : List (Int × Bytes)) (offset count : Int) :
+    Translated.limitZSetMembers l offset count = .ok (limitSlice l offset count) := by
+  rw [Translated.limit_eq, Ex.limit_eq]
+
+/-- LINDEX: the index expression never panics and reads the element Redis' normalisation names -/
+theorem C18_source_lindex (l : List Bytes) (i : Int) (hl : (l.length : Int) ≤ 9223372036854775807) (hi : inInt64 i = true) :
+    Translated.listIndex l i = .ok (match (rangeSlice l i i).head? with | none => ([], false) | some e => (e, true)) := by
+  rw [Translated.listIndex_eq l i hl hi, Ex.index_eq]
+  cases (rangeSlice l i i).head? <;> rfl
+
+example : Translated.clampRange 3 0 (-4) = (0, 0, false) ∧ Translated.clampRange 3 (-100) (-3) = (0, 0, true) ∧
+    Translated.limitZSetMembers [1, 2, 3] 1 9223372036854775807 = .ok [2, 3] ∧
+    Translated.listIndex [b!"a", b!"b"] (-1) = .ok (b!"b", true) := by decide +kernel
 
 end GoRedis
